@@ -991,11 +991,14 @@ theorem startedIds_start (log : List Ev) (aid id key k : Nat) :
     simp [hk, this]
 
 /-- the invariant of a run (while the factory has not entered `post_stop`) -/
-structure SO (w : W) : Prop where
+structure SO (lo : Nat) (w : W) : Prop where
   ord : OrdW (inboxJobs w.inbox) (startedIds w.env.log) w
   i : (inboxJobs w.inbox).Pairwise KO
   si : ∀ x ∈ inboxJobs w.inbox, ∀ s ∈ startedIds w.env.log x.key, s < x.id
   inc : ∀ k, (startedIds w.env.log k).Pairwise (· < ·)
+  /-- ids from `lo` on have not been handed out yet: they are nowhere, and no such job has started -/
+  z : ∀ i, lo ≤ i → total i w = 0
+  sb : ∀ k, ∀ s ∈ startedIds w.env.log k, s < lo
 
 theorem unique_pending_slot {pool : List WP} {k : Nat} (h : pendCount k pool ≤ 1) {p1 p2 : WP}
     (h1 : p1 ∈ pool) (h2 : p2 ∈ pool) (hk1 : p1.hasPendingKey k = true) (hk2 : p2.hasPendingKey k = true) : p1 = p2 := by
@@ -1058,14 +1061,28 @@ theorem wq_key_booked {w : W} (hc : Core fk w) {p : WP} (hp : p ∈ w.pool) {x :
 
 /-! ## a worker task runs: the start event -/
 
-theorem SO.same {w w' : W} (h : SO w) (hq : w'.queue = w.queue) (hp : w'.pool = w.pool)
+variable {lo : Nat}
+
+theorem SO.same {w w' : W} (h : SO lo w) (hq : w'.queue = w.queue) (hp : w'.pool = w.pool)
     (he : ∀ aid, mbox w'.env aid = mbox w.env aid) (hl : startsOf w'.env.log = startsOf w.env.log)
-    (hi : w'.inbox = w.inbox) : SO w' := by
+    (hi : w'.inbox = w.inbox) (hz : ∀ i, total i w' = total i w) : SO lo w' := by
   have hS : startedIds w'.env.log = startedIds w.env.log := by funext k; exact startedIds_of_starts hl k
-  refine ⟨?_, by rw [hi]; exact h.i, ?_, ?_⟩
+  refine ⟨?_, by rw [hi]; exact h.i, ?_, ?_, ?_, ?_⟩
   · rw [hi, hS]; exact h.ord.of_eq hq hp he
   · rw [hi, hS]; exact h.si
   · rw [hS]; exact h.inc
+  · intro i hi'; rw [hz]; exact h.z i hi'
+  · rw [hS]; exact h.sb
+
+theorem total_pos_of_held {w : W} {aid : Nat} {a : Actor} {j : Job} (g : w.env.getActor aid = some a)
+    (hj : j ∈ a.heldJobs) : 0 < total j.id w := by
+  have h1 := cj_pos_of_mem hj
+  have hm : a ∈ w.env.actors := List.mem_of_find?_eq_some g
+  have : cj j.id a.heldJobs ≤ cActors j.id w.env.actors := by
+    unfold cActors
+    exact le_sum_of_mem (List.mem_map.mpr ⟨a, hm, rfl⟩)
+  unfold total cEnv
+  omega
 
 theorem mbox_die_other (e : Env) (aid b : Nat) (hb : b ≠ aid) : mbox (e.die aid) b = mbox e b := by
   by_cases hnoop : ∀ a, e.getActor aid = some a → a.alive = false
@@ -1082,8 +1099,10 @@ theorem mbox_die_other (e : Env) (aid b : Nat) (hb : b ≠ aid) : mbox (e.die ai
     obtain ⟨_, hoth, _⟩ := die_spec e aid a g hal
     unfold mbox; rw [hoth b hb]
 
-theorem so_settleOne (w : W) (aid : Nat) (hc : Core fk w) (ha : AffInv w) (h : SO w) :
-    SO ({ w with env := w.env.settleOne aid } : W) := by
+theorem so_settleOne (w : W) (aid : Nat) (hc : Core fk w) (ha : AffInv w) (h : SO lo w) :
+    SO lo ({ w with env := w.env.settleOne aid } : W) := by
+  have hzz : ∀ i, total i ({ w with env := w.env.settleOne aid } : W) = total i w := by
+    intro i; simp only [total, cEnv_settleOne]
   unfold Env.settleOne
   cases g : w.env.getActor aid with
   | none => exact h
@@ -1110,7 +1129,15 @@ theorem so_settleOne (w : W) (aid : Nat) (hc : Core fk w) (ha : AffInv w) (h : S
           rw [hqa, g] at gx; cases gx
           have := (hxa hal).1
           rw [hstop] at this; cases this
-        refine ⟨?_, h.i, ?_, ?_⟩
+        have hzd : ∀ i, total i ({ w with env := w.env.die aid } : W) = total i w := by
+          intro i; simp only [total, cEnv_die]
+        refine ⟨?_, h.i, ?_, ?_, fun i hi => by rw [hzd]; exact h.z i hi, ?_⟩
+        rotate_right
+        · intro k s hs
+          have hS := startedIds_of_starts (sameE_die w.env aid) k
+          simp only at hs
+          rw [hS] at hs
+          exact h.sb k s hs
         · have hS : startedIds (w.env.die aid).log = startedIds w.env.log := by
             funext k; exact startedIds_of_starts (sameE_die w.env aid) k
           show OrdW _ (startedIds (w.env.die aid).log) _
@@ -1189,7 +1216,29 @@ theorem so_settleOne (w : W) (aid : Nat) (hc : Core fk w) (ha : AffInv w) (h : S
             have b2 := wq_key_booked hc hp hjp
             rw [hk] at b1
             exact hne (kp_one_slot_per_key ha hc.slot hq hp b1 b2)
-          refine ⟨⟨h.ord.q, ?_, h.ord.qi, ?_, ?_, ?_, ?_⟩, h.i, ?_, ?_⟩
+          have hjlo : j.id < lo := by
+            apply Classical.byContradiction
+            intro hge
+            have hp0 := total_pos_of_held (w := w) g (j := j) (by rw [hheld]; exact List.mem_cons_self ..)
+            have := h.z j.id (by omega)
+            omega
+          have hzs : ∀ i, total i ({ w with env := e' } : W) = total i w := by
+            intro i
+            have hh : a'.heldJobs = a.heldJobs := by
+              subst ha'; simp only [Actor.heldJobs, hrun, hm, List.nil_append, List.append_nil]
+            have hset := cEnv_setActor i w.env a a' g'
+            rw [hh] at hset
+            subst he'
+            simp only [total]
+            rw [cEnv_emit _ _ _ rfl]
+            omega
+          refine ⟨⟨h.ord.q, ?_, h.ord.qi, ?_, ?_, ?_, ?_⟩, h.i, ?_, ?_, fun i hi => by rw [hzs]; exact h.z i hi, ?_⟩
+          rotate_right
+          · intro k s hs
+            simp only at hs
+            rcases hmemS _ _ hs with hs | ⟨_, hs⟩
+            · exact h.sb k s hs
+            · rw [hs]; exact hjlo
           · intro q hq
             simp only
             by_cases hqp : q = p
